@@ -52,9 +52,10 @@ func runC01(c *Ctx) {
 }
 
 // ruleTokenOrder runs the grammar comparison and reports one aspect of it under the current rule:
-//   order     — R1.1 / R3.5: sequence mismatches
-//   checked   — R12.1: fixed terminals consumed without a test
-//   assigned  — R11.3: children the printer dereferences that a success path leaves unset
+//
+//	order     — R1.1 / R3.5: sequence mismatches
+//	checked   — R12.1: fixed terminals consumed without a test
+//	assigned  — R11.3: children the printer dereferences that a success path leaves unset
 func ruleTokenOrder(c *Ctx, t *tables, g *grammarModel, aspect string) {
 	var nodes []string
 	for n := range g.printers {
@@ -258,6 +259,7 @@ func ruleNoFusion(c *Ctx, t *tables, g *grammarModel, modes ...string) {
 		}
 	}
 }
+
 // ruleSemiCompact: on every path through WriteSemi on which the PrettyPrint switch is read as false, ';' is written.
 func ruleSemiCompact(c *Ctx) {
 	c.buildSSA()
